@@ -1,4 +1,5 @@
 import NucleoVerif.Driver.Chars
+import NucleoVerif.Driver.Matcher
 /-! Model driver: one request per line on stdin, one answer per line on stdout.
 Answers: `ok` | `DIFF <what the model says>` | `ORACLE <violated clause>` | `bad-op`. -/
 open NucleoVerif NucleoVerif.Driver
@@ -11,6 +12,8 @@ def answer (line : String) : String :=
     match charsOracle ws with
     | some why => s!"ORACLE {why}"
     | none => if model = " ".intercalate ws then "ok" else s!"DIFF {model}"
+  | "M" :: _ => mLine ws
+  | "X" :: _ => xLine ws
   | _ => "bad-op"
 
 partial def loop (h : IO.FS.Stream) (out : IO.FS.Stream) : IO Unit := do
